@@ -397,6 +397,42 @@ class Structural:
             return None
         return self._sort_closure(arr)
 
+    @reg('numpy.array_equal')
+    def np_array_equal(self, a1, a2, equal_nan=False):
+        """True iff same shape and all elements equal.  The SAME array object (same buffer and view) is equal to itself; None or a
+        non-array-like is unequal; otherwise a fresh boolean e with  e <-> (shapes equal and forall i. a1[i] = a2[i])  (the
+        'not equal' direction through a Skolem witness index)."""
+        if a1 is None or a2 is None:
+            return False
+        if a1 is a2:
+            return True
+        try:
+            x, y = self.asarray(a1), self.asarray(a2)
+        except (EngineError, PyExc):
+            return False
+        if isinstance(x, CArr) and isinstance(y, CArr) and x.buf is y.buf and x.same_view(y):
+            return True
+        if len(x.shape) != len(y.shape):
+            return False
+        if isinstance(x, BArr) and isinstance(y, BArr):
+            if x.a.shape != y.a.shape:
+                return False
+            return T.sand(*[T.seq(p, q) for p, q in zip(x.a.reshape(-1).tolist(), y.a.reshape(-1).tolist())]) if x.a.size else True
+        if len(x.shape) != 1:
+            raise EngineError('array_equal of symbolic n-d arrays')
+        cx, cy = A.to_carr(x), A.to_carr(y)
+        rx, ry = cx.reader(), cy.reader()
+        e = T.fresh('arr_eq', T.B)
+        n1, n2 = T.to_int_term(cx.shape[0]), T.to_int_term(cy.shape[0])
+        i = z3.Int('aeq_i')
+        w = T.fresh('aeq_w', T.I)
+        c = ctx()
+        body = T.to_bool_term(T.seq(rx(i), ry(i)))
+        c.fact(z3.Implies(e, z3.And(n1 == n2, z3.ForAll([i], z3.Implies(z3.And(0 <= i, i < n1), body)))))
+        c.fact(z3.Implies(z3.Not(e), z3.Or(n1 != n2, z3.And(0 <= w, w < n1, z3.Not(T.to_bool_term(T.seq(rx(w), ry(w))))))))
+        c.assumed.append('numpy.array_equal')
+        return N(e)
+
     @reg('numpy.argsort')
     def np_argsort(self, x, axis=-1, kind=None, stable=None):
         """indices that sort a 1-d array ascending; bounded arrays only (stable insertion sort with forking comparisons, so the
